@@ -21,6 +21,12 @@ pub fn check_parse(kind: Kind, pic: &str, text: &str, expect: Option<i128>) -> R
     if av != bv {
         return Err(format!("{}::parse({text:?}, {pic:?}) = {a:?} but Formatter::parse = {b:?}", kind.name()));
     }
+    // a third route: a formatter compiled once per thread and picture and kept (long-lived); it
+    // has parsed other texts, as other types, before
+    let c = ad::parse_long_lived(kind, text, pic).map_err(|p| format!("Formatter::parse::<{}>({text:?}) through a long-lived formatter for {pic:?}: {p}", kind.name()))?;
+    if c.as_ref().ok().map(|v| v.raw) != av {
+        return Err(format!("{}::parse({text:?}, {pic:?}) = {a:?} but a long-lived Formatter for the same picture gives {c:?}", kind.name()));
+    }
     match (expect, a) {
         (Some(w), Ok(v)) => {
             if v.raw == w {
